@@ -1,16 +1,20 @@
-"""C03 - transfer characteristics follow their defining curves (formula level) and the
-dispatch clauses (Linear = bit-exact identity, aliases share one kernel).
+"""C03 - transfer characteristics follow their defining curves, and the dispatch clauses
+(Linear = bit-exact identity, aliases share one kernel).
 
 Each scalar curve function is extracted from MIR as a closed piecewise expression with
-yuvxyb_math::{powf, expf} kept as applications; evaluated as the ideal functions
-(assumption A-elem) it is compared with the standard's formula on [0,1] by interval
-branch and bound.  NOT decided: that the polynomial powf/expf approximations keep the
-curves within the stated 2.5e-4 / 5.7e-4 (DESIGN.md section 5)."""
+yuvxyb_math::{powf, expf} kept as applications.  Two bounds are added:
+ (1) formula level: the expression read with the ideal functions against the standard's
+     formula on [0,1], by interval branch and bound;
+ (2) implementation level: sup over [0,1] of |computed - ideal| by paired interval error
+     propagation (engine/realerr.py): binary32 rounding of every operation, libm within 1 ulp,
+     and the certified local error of the polynomial powf/expf (engine/approx.py).
+(1) + (2) < budget proves the clause for every f32 in [0,1] (DESIGN.md section 8.8)."""
 from __future__ import annotations
 import importlib.util, os, sys
 from engine.check import Check
 from engine.values import Unsupported
 from engine.ival import I, evaluate, sup_abs_diff
+from engine import realerr
 from .common import *
 from .c14 import STD_CURVES, canon
 from .c16 import curve_kernel
@@ -27,11 +31,15 @@ def budget(t, direction):
     return 5.7e-4 if (t == 'PerceptualQuantizer' and direction == 'to_gamma') else 2.5e-4
 
 def run(tier):
-    ck = Check('C03', tier, 'proof', 'closed-form extraction of each curve from MIR (helpers as ideal functions) + interval branch and bound against the standard formula; match-table rules for Linear and the aliases')
+    ck = Check('C03', tier, 'proof', 'closed-form extraction of each curve from MIR + interval branch and bound against the standard formula (formula level) + paired interval error propagation with certified powf/expf error (implementation level); match-table rules for Linear and the aliases')
     spec_ = load_spec()
     ctx = Ctx('K1')
     kernels = {}
     bb_cache = {}
+    err_cache = {}
+    budgets = {}
+    H = realerr.Helpers(Ctx('K1', 'yuvxyb_math'))
+    ck.note('helper_kind', dict(H.kind))
     for t in STD_CURVES:
         for di, direction in enumerate(('to_linear', 'to_gamma')):
             base = f"C03/{t}/{direction}"
@@ -45,19 +53,35 @@ def run(tier):
                 f = lambda iv, e=e, x=x: evaluate(e, {x.id: iv})
                 g = spec_[t][di]
                 bud = budget(t, direction)
-                thr = 0.2 * bud
+                # (2) implementation level first: it fixes how much room the formula level has
+                ekey = canon(e)
+                if ekey not in err_cache:
+                    try:
+                        err_cache[ekey] = realerr.sup_error(e, x, H, 0.0, 1.0, 0.56 * bud, max_boxes=3000 if tier == 'quick' else 12000)
+                    except Unsupported as ex:
+                        err_cache[ekey] = (float('inf'), 0, None, str(ex))
+                e_up, e_n, e_box, e_msg = err_cache[ekey]
+                ck.count('error_boxes', e_n)
+                room = bud - e_up
+                thr = 0.2 * bud if room <= 0 else min(0.2 * bud, 0.8 * room)
                 lo = 0.0
                 ckey = (canon(e), id(g), thr)
                 if ckey not in bb_cache:
-                    bb_cache[ckey] = sup_abs_diff(f, g, lo, 1.0, thr, max_boxes=60000 if tier == 'quick' else 600000)
+                    bb_cache[ckey] = sup_abs_diff(f, g, lo, 1.0, thr, max_boxes=(60000 if thr > 4e-5 else 400000) if tier == 'quick' else 1000000)
                 upper, lower, arg, n = bb_cache[ckey]
                 ck.count('boxes', n)
                 if upper <= thr:
-                    ck.ob(base, 'PROVED', f"sup over [0,1] of |curve - defining formula| <= {upper:.3g} at formula level (<= {thr:.3g} = budget/5)")
+                    ck.ob(base, 'PROVED', f"sup over [0,1] of |curve - defining formula| <= {upper:.3g} at formula level (target {thr:.3g})")
                 elif lower > 2 * bud:
                     ck.ob(base, 'REFUTED', f"the closed form of {t} {direction} differs from the defining formula by >= {lower:.3g} at x = {arg!r} (budget {bud}); no admissible approximation error can repair that")
                 else:
                     ck.ob(base, 'UNDECIDED', f"formula-level deviation between {lower:.3g} and {upper:.3g} (x = {arg!r}); budget {bud}")
+                total = upper + e_up
+                if total < bud:
+                    ck.ob(base + '/budget', 'PROVED', f"|computed - defining formula| <= {upper:.3g} (formula level) + {e_up:.3g} (rounding, libm, certified powf/expf error; {e_n} boxes) = {total:.4g} < {bud} for every x in [0,1]")
+                else:
+                    ck.ob(base + '/budget', 'UNDECIDED', f"bound {upper:.3g} + {e_up:.3g} = {total:.4g} does not stay below the budget {bud}" + (f" ({e_msg})" if e_msg else '') + (f"; worst box {e_box}" if e_box else ''))
+                budgets[f"{t}/{direction}"] = dict(formula=upper, implementation=e_up, total=total, budget=bud)
                 ck.sample(dict(curve=t, direction=direction, upper=upper, lower=lower, boxes=n))
                 # counter-example search on the REAL kernel (helper bodies expanded and constant-folded):
                 # can only refute - no accuracy claim is derived from it
@@ -73,8 +97,9 @@ def run(tier):
         ck.ob(f"C03/aliases/{direction}", 'PROVED' if same else 'REFUTED',
               'BT1886, ST170M, ST240M, BT2020Ten, BT2020Twelve have the identical kernel expression' if same else f"aliases of BT.1886 differ: { {t: hash(v) % 1000 for t, v in ks.items()} }")
     ck.floor('curves', 28)
-    ck.note('not_decided', ['accuracy of the polynomial powf / expf approximations (whether the curves stay within 2.5e-4 / 5.7e-4 of these formulas)'])
-    ck.assumptions += ['A-elem: yuvxyb_math::powf / expf evaluated as the ideal functions', 'host libm within 1 ulp (interval evaluation widened by 8 ulps)', 'xvYCC on [0,1] is the BT.1886 pair']
+    ck.note('budgets', budgets)
+    ck.assumptions += ['A-libm: f32 ln / log10 of the target libm within 1 ulp; sqrt correctly rounded', 'host libm within 1 ulp (interval evaluation widened by 8 ulps)', 'xvYCC on [0,1] is the BT.1886 pair',
+                       'default build (K1: fastmath, no FMA); the FMA and libm builds are covered by C20']
     return ck.finish()
 
 def real_witness(ctx, e, x, g, bud, npts):
